@@ -50,3 +50,102 @@ Definition version_string (M m p : N) : bytes :=
   show_dec M ++ dot :: show_dec m ++ dot :: show_dec p.
 Definition proto_id (n : bytes) (M m p : N) : bytes :=
   slash :: n ++ slash :: version_string M m p.
+
+(* --- the function with its crash points explicit -------------------------------------------------
+   matchProtocolIDWithSemver indexes parts[1] and parts[2]; an index outside the slice is a Go run-time
+   panic.  [index_o] is that indexing statement.  The version library (semver.NewVersion) is an argument
+   [nv] of the generic function: it answers with a parse result, or is itself the crash point [Panic]. *)
+Definition index_o (parts : list bytes) (i : nat) : outcome bytes :=
+  match nth_error parts i with Some s => Ok s | None => Panic end.
+
+Definition decide (sv pv : vres) : verdict :=
+  match sv, pv with
+  | VErr, _ => NoMatch
+  | _, VErr => NoMatch
+  | VNum SM Sm _, VNum PM Pm _ => if (SM =? PM) && (Pm <=? Sm) then Match else NoMatch
+  | _, _ => Unspec
+  end.
+
+Definition match_id_gen (nv : bytes -> outcome vres) (incoming name supported : bytes) : outcome verdict :=
+  let parts := split slash incoming in
+  if negb (Nat.eqb (length parts) 3) then Ok NoMatch            (* return false, error *)
+  else
+    match index_o parts 1 with                                  (* protocolName := parts[1] *)
+    | Ok n =>
+        match index_o parts 2 with                              (* protocolVersion := parts[2] *)
+        | Ok v =>
+            if negb (bytes_eqb n name) then Ok NoMatch
+            else match nv supported with
+                 | Ok sv => match nv v with
+                            | Ok pv => Ok (decide sv pv)
+                            | Err c => Err c
+                            | Panic => Panic
+                            end
+                 | Err c => Err c
+                 | Panic => Panic
+                 end
+        | Err c => Err c
+        | Panic => Panic
+        end
+    | Err c => Err c
+    | Panic => Panic
+    end.
+
+(* the same body without the length test: what the guard is there for *)
+Definition match_id_unguarded (nv : bytes -> outcome vres) (incoming name supported : bytes) : outcome verdict :=
+  let parts := split slash incoming in
+  match index_o parts 1 with
+  | Ok n =>
+      match index_o parts 2 with
+      | Ok v => if negb (bytes_eqb n name) then Ok NoMatch
+                else match nv supported, nv v with
+                     | Ok sv, Ok pv => Ok (decide sv pv)
+                     | Panic, _ => Panic
+                     | _, Panic => Panic
+                     | Err c, _ => Err c
+                     | _, Err c => Err c
+                     end
+      | Err c => Err c
+      | Panic => Panic
+      end
+  | Err c => Err c
+  | Panic => Panic
+  end.
+
+(* the library on the fragment this development models *)
+Definition nv_model (s : bytes) : outcome vres := Ok (parse_version s).
+Definition match_id_o := match_id_gen nv_model.
+
+(* --- routing: AddStreamHandlers over go-multistream ---------------------------------------------
+   A registered handler is (registration number, (name, version)).  host.SetStreamHandlerMatch(name, match,
+   handler) is MultistreamMuxer.AddHandlerWithFunc: removeHandler(name) deletes the FIRST entry added under
+   that name, then the new entry is appended.  findHandler returns the first entry (in list order) whose
+   match function answers true.  The match function of an entry is matchProtocolIDWithSemver with the
+   entry's own name and version (the per-iteration copy ss := stream). *)
+Definition desc := (bytes * bytes)%type.
+Definition handler := (N * desc)%type.
+Definition h_name (h : handler) : bytes := fst (snd h).
+
+Fixpoint remove_handler (n : bytes) (hs : list handler) : list handler :=
+  match hs with
+  | [] => []
+  | h :: r => if bytes_eqb (h_name h) n then r else h :: remove_handler n r
+  end.
+Definition add_handler (hs : list handler) (k : N) (d : desc) : list handler :=
+  remove_handler (fst d) hs ++ [(k, d)].
+Fixpoint add_handlers (hs : list handler) (k : N) (ds : list desc) : list handler :=
+  match ds with
+  | [] => hs
+  | d :: r => add_handlers (add_handler hs k d) (k + 1) r
+  end.
+Definition is_match (v : verdict) : bool := match v with Match => true | _ => false end.
+Definition find_handler (hs : list handler) (incoming : bytes) : option handler :=
+  find (fun h => is_match (match_id incoming (fst (snd h)) (snd (snd h)))) hs.
+
+(* the handler an incoming identifier reaches on a node that registered [ds] (numbered from 1, in order) *)
+Definition table (ds : list desc) : list handler := add_handlers [] 1 ds.
+Definition route (ds : list desc) (incoming : bytes) : option handler := find_handler (table ds) incoming.
+
+(* the registrations, numbered *)
+Fixpoint number (k : N) (ds : list desc) : list handler :=
+  match ds with [] => [] | d :: r => (k, d) :: number (k + 1) r end.
